@@ -347,7 +347,7 @@ pub mod rust_log_ref_finder
                     result.push(ref_entry);
                 },
                 Rule::EOI => (),
-                Rule::silent_string_literal | Rule::char_literal => (),
+                Rule::raw_string_literal | Rule::silent_string_literal | Rule::char_literal => (),
                 _ => unreachable!(),
             }
         }
